@@ -165,6 +165,15 @@ def run_check(pid, tier, seed):
         nontriv = set()
         oracle_fail = []
         for line, io, mo in zip(cases, impl, model):
+            if io == "hang":
+                # the implementation did not answer this case at all (vpcore's watchdog): non-termination is a failure on its own,
+                # whatever the property - the case is the failing input
+                oracle_fail.append((line, io, mo, "the implementation did not return on this input within %d s (hang); the model answers %s"
+                                    % (vc.HANG_SECONDS, (mo or "")[:60])))
+                continue
+            if io == "hang-skipped":
+                mismatches.append((line, io, mo))
+                continue
             ci = prop.canon_impl(line, io)
             cm = prop.canon_model(line, mo)
             tg = prop.tag(line, ci)
